@@ -245,6 +245,36 @@ def trace_validation(rep, wd, tier, seed):
         realf.append({'tid': 2 * 10 ** 6 + i, 'kind': 'unblocker', 'file': list(f),
                       'events': [{'op': 'read', 'n': n_, 'bytes': list(o)} for n_, o in zip(sizes, outs)],
                       '_desc': 'Unblock1014 over a real file of %d blocks that was read and rewound before, reads %s' % (nblocks, sizes)})
+    # an UNBUFFERED file (open(..., buffering=0)): a first unblocker looks at the head and is dropped, the same file
+    # object is rewound and read through a second unblocker
+    import gc
+    for i, nblocks in enumerate((3, 12)):
+        f = render_blocks(bytes((j * 19 + j // 241) % 241 + 1 for j in range(nblocks * P - 77)), nblocks)
+        path = os.path.join(wd, 'c05-raw-%d.bin' % i)
+        drv.spit(path, f)
+        sizes = [4, 900, 2000, 0] if i == 0 else [P] * 4 + [0]
+        ev = []
+        fh = (open(path, 'rb', buffering=0) if i == 0 else _io.FileIO(path, 'r'))
+        try:
+            u1 = _m.Unblock1014(fh)
+            u1.read(4)
+            del u1
+            gc.collect()
+            fh.seek(0)
+            u = _m.Unblock1014(fh)
+            for n_ in sizes:
+                o = u.read() if n_ == 0 else u.read(n_)
+                ev.append({'op': 'read', 'n': n_, 'bytes': list(o)})
+        except BaseException as ex:  # noqa
+            ev.append({'op': 'read', 'n': sizes[len(ev)] if len(ev) < len(sizes) else 0, 'bytes': [-1], '_exc': drv.exc_outcome(ex)['cls']})
+        finally:
+            try:
+                fh.close()
+            except Exception:
+                pass
+            os.unlink(path)
+        realf.append({'tid': 2 * 10 ** 6 + 10 + i, 'kind': 'unblocker', 'file': list(f), 'events': ev,
+                      '_desc': 'Unblock1014 over an unbuffered file of %d blocks, after a first unblocker on the same file object was dropped, reads %s' % (nblocks, sizes)})
     # unblock_1014 on long inputs cut at multiples of 1024 / 4096 / 16384 / 65536 and next to them
     cuts = []
     base = render_blocks(bytes((j * 17 + j // 249) % 249 + 1 for j in range(70 * P - 5)), 70)
